@@ -669,21 +669,30 @@ def run_case(case, ch: Choices) -> RunResult:
                 res.bump("probe.inline_fragments")
             if _max_arg_depth(op) >= 3:
                 res.bump("probe.argument_at_depth_3plus")
-        # ---- fresh-copy differential on the last operation
-        if history and sent_docs and not res.violations:
-            try:
-                fresh = load("fresh")
-                fclient = make_client(fresh)
-                cap, exc = send(fclient, history[-1], fresh)
-                if exc is None and cap is not None:
-                    fb = json.loads(cap.body)
-                    if (fb.get("query"), fb.get("variables")) != sent_docs[-1]:
-                        res.violations.append(Violation(
-                            "history-dependence", "the last operation sent %r / %r after the history, but %r / %r on a freshly imported copy" % (
-                                sent_docs[-1][0], sent_docs[-1][1], fb.get("query"), fb.get("variables")), {}))
-                    res.bump("fresh_copy_comparisons")
-            except (ImportError, Unresolvable):
-                pass
+            # ---- fresh-copy differential, after every operation the reference model accepted: the same expression is
+            # interpreted on a freshly imported copy of the generated modules (no earlier operation touched its objects);
+            # the text and the variables sent must be identical (this also covers what the reference model leaves free:
+            # variable names and their order, layout)
+            if len(res.violations) == vio_before:
+                try:
+                    fresh = load("fresh")
+                    try:
+                        fclient = make_client(fresh)
+                        keep = last_built[0]
+                        fcap, fexc = send(fclient, op, fresh)
+                        last_built[0] = keep
+                    finally:
+                        unload(aliases.pop())
+                    if fexc is None and fcap is not None:
+                        fb = json.loads(fcap.body)
+                        if (fb.get("query"), fb.get("variables")) != (q, vs):
+                            V("history-dependence", "sent %r / %r after the history, but %r / %r on a freshly imported copy" % (
+                                q, vs, fb.get("query"), fb.get("variables")), resent_objects=prebuilt is not None)
+                        res.bump("fresh_copy_comparisons")
+                    elif fexc is not None:
+                        V("history-dependence", "the expression was sent after the history but raised %r on a freshly imported copy" % fexc)
+                except (ImportError, Unresolvable):
+                    pass
         res.trace = trace
         res.nontrivial = len(history) >= 2 or any(e["args"] for o in history for e in _all_nodes(o))
         shapes = [_shape(o) for o in history]
